@@ -85,12 +85,26 @@ Minor(ver) ==
 HeaderVariants(ver) ==
   LET h == SB[Header(ver)]
   IN  {SB[Header(v)] : v \in VersionSet}                       \* other versions' headers, none
+      \cup {SubSeq(h, 1, k) : k \in 0..Len(h)}                  \* every prefix of the header ...
+      \cup {SubSeq(h, 1, k) \o <<SLASH>> : k \in 0..Len(h)}    \* ... alone and followed by "/"
       \cup { LowerB(h), SubSeq(h, 1, Len(h) - 1), h \o h, <<32>> \o h, h \o <<32>>,
              h \o <<SLASH>>, <<SLASH>> \o h, h \o <<0>>, SubSeq(h, 2, Len(h)),
              StrBytes("CVSS:3.1"), StrBytes("CVSS:3.0"), StrBytes("CVSS:4.0/"),
              StrBytes("CVSS:3.2/"), StrBytes("CVSS:4.1"), StrBytes("CVSS:2.0/"),
              StrBytes("CVSS:3."), StrBytes("CVSS:"), StrBytes("CVSS:31/") }
 TailVariants == { <<>>, <<SLASH>>, <<32>>, <<10>>, <<0>>, <<SLASH, SLASH>>, <<200>> }
+
+InsAt(s, j, e) == SubSeq(s, 1, j - 1) \o <<e>> \o SubSeq(s, j, Len(s))
+RemAt(s, k) == SubSeq(s, 1, k - 1) \o SubSeq(s, k + 1, Len(s))
+
+(* single-byte edits of a whole concrete string: substitute (separator, colon, a letter, *)
+(* blank, NUL, a byte >= 0x80, the other case), delete, insert                           *)
+Flip(c) == IF c \in 65..90 THEN c + 32 ELSE IF c \in 97..122 THEN c - 32 ELSE c
+ByteEdits(b) ==
+  ({[b EXCEPT ![i] = c] : i \in 1..Len(b), c \in {SLASH, COLON, 88, 32, 0, 200}}
+   \cup {[b EXCEPT ![i] = Flip(b[i])] : i \in 1..Len(b)}
+   \cup {RemAt(b, i) : i \in 1..Len(b)}
+   \cup {InsAt(b, i, c) : i \in 1..(Len(b) + 1), c \in {SLASH, COLON, 78, 32}}) \ {b}
 
 Body(ver, p) == IF ver = "4.0" THEN JoinLead(p, SLASH) ELSE Join(p, SLASH)
 
@@ -109,8 +123,6 @@ Build(p, tag, exp) ==
   /\ inp' = [inp EXCEPT !.tag = tag, !.exp = IF ndev = 0 THEN exp ELSE NoExp]
   /\ UNCHANGED <<ps, out>>
 
-InsAt(s, j, e) == SubSeq(s, 1, j - 1) \o <<e>> \o SubSeq(s, j, Len(s))
-RemAt(s, k) == SubSeq(s, 1, k - 1) \o SubSeq(s, k + 1, Len(s))
 
 CanDeviate == ps.pc = "build" /\ ndev < MaxDev
 
@@ -219,6 +231,15 @@ Concretise ==
            /\ els' = <<>>
            /\ UNCHANGED <<ndev, out>>
 
+(* one byte of the exact concrete string edited (major spines, no other deviation) *)
+ConcretiseEdited ==
+  /\ ps.pc = "build" /\ ndev = 0 /\ IsMajor /\ Fam = "all"
+  /\ \E b \in ByteEdits(SB[Header(inp.ver)] \o Body(inp.ver, els)) :
+       /\ inp' = [inp EXCEPT !.b = b, !.exp = NoExp, !.tag = Tag("byte", 0)]
+       /\ ps' = [ps EXCEPT !.pc = "start"]
+       /\ els' = <<>>
+       /\ UNCHANGED <<ndev, out>>
+
 Init ==
   \E ver \in Vers :
     \E maj \in BOOLEAN :
@@ -256,7 +277,7 @@ Judged == out # <<>>
 
 Next ==
   \/ DevValue \/ DevBadValue \/ DevReplace \/ DevInsert \/ DevDelete \/ DevDup \/ DevSwap \/ DevTrunc
-  \/ Concretise
+  \/ Concretise \/ ConcretiseEdited
   \/ (~BigStep /\ ParseStep /\ UNCHANGED <<els, ndev, out>>)
   \/ (BigStep /\ BigRun /\ UNCHANGED <<els, ndev, out>>)
   \/ Judge
